@@ -297,11 +297,11 @@ func DocOps(vals []*model.Value) []WOp {
 
 // WOutcome is the result of a writer program.
 type WOutcome struct {
-	Errs      []string // per call: "" = nil
-	Panic     string
-	Frame     string
-	PanicAt   int // op index
-	Sink      *sim.Sink
+	Errs    []string // per call: "" = nil
+	Panic   string
+	Frame   string
+	PanicAt int // op index
+	Sink    *sim.Sink
 	// FailOp is the index of the call during which the Sink's first failing Write happened (-1: none).
 	FailOp int
 }
